@@ -121,8 +121,8 @@ Theorem shared_clients_lock_protected :
 Proof. exact shared_clients_lock_protected_lemma. Qed.
 Print Assumptions shared_clients_lock_protected.
 
-(* ... and these are all the slots that do not: the Maven registry list (written by AddRegistry, appended to
-   by the read paths), its cache timestamp (read by WithoutRegistries), and the OverrideClient maps (an
+(* ... and these are all the slots that do not: the Maven registry list (written by AddRegistry without the
+   mutex while the client is set up, read by the lookups), its cache timestamp (read by WithoutRegistries), and the OverrideClient maps (an
    OverrideClient is built and filled by one goroutine per Resolve call: confined, not shared) *)
 Theorem client_unprotected_slots_refuted :
   unprotected_slots client_accesses =
@@ -131,14 +131,15 @@ Theorem client_unprotected_slots_refuted :
 Proof. exact client_unprotected_slots_lemma. Qed.
 Print Assumptions client_unprotected_slots_refuted.
 
-(* concurrent GetProject / GetVersions both do append(m.registries, m.defaultRegistry) on the shared slice *)
-Theorem maven_registry_append_race_refuted :
-  append_pairs <> [] /\
-  forallb (fun p => String.eqb (ca_struct (fst p)) "MavenRegistryAPIClient" && String.eqb (ca_field (fst p)) "registries")
-          (filter (fun p => match ca_kind (fst p), ca_kind (snd p) with AA, AA => true | _, _ => false end)
-                  (unprotected_pairs client_accesses)) = true.
-Proof. exact maven_registry_append_race_lemma. Qed.
-Print Assumptions maven_registry_append_race_refuted.
+(* after /repo's "fix: datasource: MavenRegistryAPIClient lookups iterate over a fresh registry slice": no
+   method appends to a field slice in place, the registry list is written by AddRegistry only (the remaining
+   reason it is in the list above: set-up-time writes without the mutex) and read through allRegistries *)
+Theorem registries_never_appended_in_place :
+  in_place_appends = [] /\
+  writers "MavenRegistryAPIClient" "registries" = ["AddRegistry"]%string /\
+  existsb (fun a => String.eqb (ca_method a) "allRegistries" && String.eqb (ca_field a) "registries") client_accesses = true.
+Proof. exact registries_never_appended_in_place_lemma. Qed.
+Print Assumptions registries_never_appended_in_place.
 
 (* ================================================================== non-vacuity *)
 (* a strategy with a spawned attempt: two delivery orders, same result; hypotheses hold on its outputs *)
@@ -183,3 +184,9 @@ Example race_returns_without_status_lock :
   racy_ticker_fns (map without_locks walk_accesses) walk_calls "RunFS" = ["printStatus"]%string /\
   racy_main_fns (map without_locks walk_accesses) walk_calls "RunFS" = ["handleFile"; "runExtractor"]%string.
 Proof. exact race_returns_without_status_lock_lemma. Qed.
+
+(* the discipline sees the repaired shape when it is put back *)
+Example append_shape_is_detected :
+  existsb (fun p => match ca_kind (fst p), ca_kind (snd p) with AA, AA => true | _, _ => false end)
+          (unprotected_pairs (map with_in_place_append client_accesses)) = true.
+Proof. exact append_shape_is_detected_lemma. Qed.
